@@ -80,90 +80,107 @@ macro "enc_write" d:ident E:term:max e2:term:max R:term:max hR:term:max : tactic
 macro "utf16_rest" src:ident d:ident E:term:max e2:term:max F:term:max f2:term:max i:ident v1:ident hv64:ident hv16:ident h4:ident : tactic => `(tactic|
   (simp only [(u64_cmp $v1 55296 $hv64 (by omega)).1, (u64_cmp $v1 57344 $hv64 (by omega)).2,
      (u64_cmp $v1 55296 $hv64 (by omega)).2, (u64_cmp $v1 56320 $hv64 (by omega)).1]
-   by_cases hA : $v1 < 55296 ∨ $v1 ≥ 57344
-   · have hAb : (decide ($v1 < 55296) || decide ($v1 ≥ 57344)) = true := by
-       simp only [Bool.or_eq_true, decide_eq_true_eq]; exact hA
-     simp only [hA, hAb, if_true]
+   have hcases : $v1 < 55296 ∨ $v1 ≥ 57344 ∨ ($v1 ≥ 55296 ∧ $v1 < 56320) ∨ ($v1 ≥ 56320 ∧ $v1 < 57344) := by omega
+   rcases hcases with hA | hA | hA | hA
+   · have a1 : $v1 < 55296 := hA
+     have a2 : ¬ $v1 ≥ 57344 := by omega
+     have a3 : ¬ $v1 ≥ 55296 := by omega
+     have a4 : $v1 < 56320 := by omega
+     simp only [a1, a2, a3, a4, decide_true, decide_false, Bool.or_true, Bool.true_or, Bool.or_false, Bool.false_or, Bool.and_true, Bool.true_and, Bool.and_false, Bool.false_and, Bool.or_self, Bool.and_self, Bool.false_eq_true, true_or, or_true, or_false, false_or, and_true, true_and, and_false, false_and, and_self, or_self, not_true_eq_false, not_false_eq_true, if_true, if_false]
      enc_write $d $E $e2 (BitVec.setWidth 32 (BitVec.ofNat 64 $v1)) (rune_of_u64 $v1 (by omega))
-   · have hAb : (decide ($v1 < 55296) || decide ($v1 ≥ 57344)) = false := by
-       simp only [Bool.or_eq_false_iff, decide_eq_false_iff_not]; omega
-     have hB : $v1 ≥ 55296 ∧ $v1 < 56320 ∨ ¬ ($v1 ≥ 55296 ∧ $v1 < 56320) := by omega
-     rcases hB with hB | hB
-     · have hBb : (decide ($v1 ≥ 55296) && decide ($v1 < 56320)) = true := by
-         simp only [Bool.and_eq_true, decide_eq_true_eq]; exact hB
-       simp only [hA, hAb, hB, hBb, and_self, if_true, if_false, Bool.false_eq_true]
-       by_cases h6 : List.length $src - ($i + 6) < 6
-       · have h6' : Int.ofNat (List.length $src) - ((($i : Nat) : Int) + 6) < 6 := by simp; omega
-         simp only [h6, h6', decide_true, if_true]
-         apply StepRel.brk
-         congr 1
-       · have h6' : ¬ Int.ofNat (List.length $src) - ((($i : Nat) : Int) + 6) < 6 := by simp; omega
-         simp only [h6, h6', decide_false, if_false, Bool.false_eq_true]
-         have hj0 : $i + 6 < List.length $src := by omega
-         have hj1 : $i + 6 + 1 < List.length $src := by omega
-         rw [idx_ok' $src _ ($i + 6) (by omega) hj0]
-         have hn0 : (bytesOf $src)[$i + 6]? = some (($src)[$i + 6]).toNat := by
-           simp [bytesOf_getElem?, List.getElem?_eq_getElem hj0]
-         have hn1 : (bytesOf $src)[$i + 6 + 1]? = some (($src)[$i + 6 + 1]).toNat := by
-           simp [bytesOf_getElem?, List.getElem?_eq_getElem hj1]
-         simp only [hn0, hn1, Res.bind_ok']
-         generalize ($src)[$i + 6] = b0
-         by_cases hb0 : b0 = 92#8
-         · subst hb0
-           simp only [bne_self_eq_false, Bool.not_false, Bool.false_eq_true, if_true, if_false, BitVec.toNat_ofNat,
-             Nat.reducePow, Nat.reduceMod, ne_eq, not_true_eq_false]
-           rw [idx_ok' $src _ ($i + 6 + 1) (by omega) hj1]
+   · have a1 : ¬ $v1 < 55296 := by omega
+     have a2 : $v1 ≥ 57344 := hA
+     have a3 : $v1 ≥ 55296 := by omega
+     have a4 : ¬ $v1 < 56320 := by omega
+     simp only [a1, a2, a3, a4, decide_true, decide_false, Bool.or_true, Bool.true_or, Bool.or_false, Bool.false_or, Bool.and_true, Bool.true_and, Bool.and_false, Bool.false_and, Bool.or_self, Bool.and_self, Bool.false_eq_true, true_or, or_true, or_false, false_or, and_true, true_and, and_false, false_and, and_self, or_self, not_true_eq_false, not_false_eq_true, if_true, if_false]
+     enc_write $d $E $e2 (BitVec.setWidth 32 (BitVec.ofNat 64 $v1)) (rune_of_u64 $v1 (by omega))
+   · have a1 : ¬ $v1 < 55296 := by omega
+     have a2 : ¬ $v1 ≥ 57344 := by omega
+     have a3 : $v1 ≥ 55296 := hA.1
+     have a4 : $v1 < 56320 := hA.2
+     simp only [a1, a2, a3, a4, decide_true, decide_false, Bool.or_true, Bool.true_or, Bool.or_false, Bool.false_or, Bool.and_true, Bool.true_and, Bool.and_false, Bool.false_and, Bool.or_self, Bool.and_self, Bool.false_eq_true, true_or, or_true, or_false, false_or, and_true, true_and, and_false, false_and, and_self, or_self, not_true_eq_false, not_false_eq_true, if_true, if_false]
+     by_cases h6 : List.length $src - ($i + 6) < 6
+     · have h6' : Int.ofNat (List.length $src) - ((($i : Nat) : Int) + 6) < 6 := by simp; omega
+       simp only [h6, h6', decide_true, if_true]
+       apply StepRel.brk
+       congr 1 <;> omega
+     · have h6' : ¬ Int.ofNat (List.length $src) - ((($i : Nat) : Int) + 6) < 6 := by simp; omega
+       simp only [h6, h6', decide_false, if_false, Bool.false_eq_true]
+       have hj0 : $i + 6 < List.length $src := by omega
+       have hj1 : $i + 6 + 1 < List.length $src := by omega
+       rw [idx_ok' $src _ ($i + 6) (by omega) hj0]
+       have hn0 : (bytesOf $src)[$i + 6]? = some (($src)[$i + 6]).toNat := by
+         simp [bytesOf_getElem?, List.getElem?_eq_getElem hj0]
+       have hn1 : (bytesOf $src)[$i + 6 + 1]? = some (($src)[$i + 6 + 1]).toNat := by
+         simp [bytesOf_getElem?, List.getElem?_eq_getElem hj1]
+       simp only [hn0, hn1, Res.bind_ok']
+       generalize ($src)[$i + 6] = b0
+       by_cases hb0 : b0 = 92#8
+       · subst hb0
+         simp only [bne_self_eq_false, beq_self_eq_true, Bool.not_true, Bool.not_not, Bool.not_false, Bool.false_eq_true, if_true, if_false, BitVec.toNat_ofNat,
+           Nat.reducePow, Nat.reduceMod, ne_eq, not_true_eq_false]
+         rw [idx_ok' $src _ ($i + 6 + 1) (by omega) hj1]
+         simp only [Res.bind_ok']
+         generalize ($src)[$i + 6 + 1] = b1
+         by_cases hb1 : b1 = 117#8
+         · subst hb1
+           simp only [bne_self_eq_false, beq_self_eq_true, Bool.not_true, Bool.not_not, Bool.false_eq_true, if_false, BitVec.toNat_ofNat, Nat.reducePow,
+             Nat.reduceMod, ne_eq, not_true_eq_false]
+           rw [slice_ok' $src _ _ ($i + 6 + 2) ($i + 6 + 6) (by omega) (by omega) (by omega) (by omega)]
+           rw [(slice_ok $src ($i + 6 + 2) ($i + 6 + 6) (by omega) (by omega)).2]
            simp only [Res.bind_ok']
-           generalize ($src)[$i + 6 + 1] = b1
-           by_cases hb1 : b1 = 117#8
-           · subst hb1
-             simp only [bne_self_eq_false, Bool.false_eq_true, if_false, BitVec.toNat_ofNat, Nat.reducePow,
-               Nat.reduceMod, ne_eq, not_true_eq_false]
-             rw [slice_ok' $src _ _ ($i + 6 + 2) ($i + 6 + 6) (by omega) (by omega) (by omega) (by omega)]
-             rw [(slice_ok $src ($i + 6 + 2) ($i + 6 + 6) (by omega) (by omega)).2]
-             simp only [Res.bind_ok']
-             rw [parseUint_lit _ 16 16 (by omega) (by omega) (by omega) (16 : Int) (16 : Int) rfl rfl]
-             simp only [Res.bind_ok']
-             have hw64 := parseUint_lt (bytesOf (List.drop ($i + 6 + 2) (List.take ($i + 6 + 6) $src))) 16 16
-             generalize hr2 : Golib.C07.parseUint (bytesOf (List.drop ($i + 6 + 2) (List.take ($i + 6 + 6) $src))) 16 16 = r2 at hw64
-             obtain ⟨v2, j2, ok2⟩ := r2
-             simp only [] at hw64
-             cases ok2
-             · simp only [Bool.not_false, if_true]
-               apply StepRel.cont
-               congr 1 <;> omega
-             · simp only [Bool.not_true, Bool.false_eq_true, if_false]
-               simp only [(u64_cmp v2 56320 hw64 (by omega)).2, (u64_cmp v2 57344 hw64 (by omega)).1]
-               by_cases hC : v2 ≥ 56320 ∧ v2 < 57344
-               · have hCb : (decide (v2 ≥ 56320) && decide (v2 < 57344)) = true := by
-                   simp only [Bool.and_eq_true, decide_eq_true_eq]; exact hC
-                 simp only [hC, hCb, and_self, if_true]
-                 enc_write $d $E $e2
-                   (GoSem.utf16DecodeRune (BitVec.setWidth 32 (BitVec.ofNat 64 $v1)) (BitVec.setWidth 32 (BitVec.ofNat 64 v2)))
-                   (dec_bridge $v1 v2 hB hC)
-               · have hCb : (decide (v2 ≥ 56320) && decide (v2 < 57344)) = false := by
-                   simp only [Bool.and_eq_false_iff, decide_eq_false_iff_not]; omega
-                 simp only [hC, hCb, if_false, Bool.false_eq_true]
-                 apply StepRel.cont
-                 congr 1 <;> omega
-           · have hb1' : b1.toNat ≠ 117 := by
-               intro h; apply hb1; apply BitVec.eq_of_toNat_eq; simpa using h
-             have hbb : (b1 != 117#8) = true := by simpa using hb1
-             simp only [hbb, if_true, ne_eq, hb1', not_false_eq_true]
+           rw [parseUint_lit _ 16 16 (by omega) (by omega) (by omega) (16 : Int) (16 : Int) rfl rfl]
+           simp only [Res.bind_ok']
+           have hw64 := parseUint_lt (bytesOf (List.drop ($i + 6 + 2) (List.take ($i + 6 + 6) $src))) 16 16
+           generalize hr2 : Golib.C07.parseUint (bytesOf (List.drop ($i + 6 + 2) (List.take ($i + 6 + 6) $src))) 16 16 = r2 at hw64
+           obtain ⟨v2, j2, ok2⟩ := r2
+           simp only [] at hw64
+           cases ok2
+           · simp only [Bool.not_false, if_true]
              apply StepRel.cont
              congr 1 <;> omega
-         · have hb0' : b0.toNat ≠ 92 := by
-             intro h; apply hb0; apply BitVec.eq_of_toNat_eq; simpa using h
-           have hbb : (b0 != 92#8) = true := by simpa using hb0
-           simp only [hbb, Bool.not_true, Bool.false_eq_true, if_false, if_true, Res.bind_ok', ne_eq, hb0',
-             not_false_eq_true]
+           · simp only [Bool.not_true, Bool.false_eq_true, if_false]
+             simp only [(u64_cmp v2 56320 hw64 (by omega)).2, (u64_cmp v2 57344 hw64 (by omega)).1]
+             have hcs : v2 < 56320 ∨ (v2 ≥ 56320 ∧ v2 < 57344) ∨ v2 ≥ 57344 := by omega
+             rcases hcs with hC | hC | hC
+             · have c1 : ¬ v2 ≥ 56320 := by omega
+               have c2 : v2 < 57344 := by omega
+               simp only [c1, c2, decide_true, decide_false, Bool.or_true, Bool.true_or, Bool.or_false, Bool.false_or, Bool.and_true, Bool.true_and, Bool.and_false, Bool.false_and, Bool.or_self, Bool.and_self, Bool.false_eq_true, true_or, or_true, or_false, false_or, and_true, true_and, and_false, false_and, and_self, or_self, not_true_eq_false, not_false_eq_true, if_true, if_false]
+               apply StepRel.cont
+               congr 1 <;> omega
+             · have c1 : v2 ≥ 56320 := hC.1
+               have c2 : v2 < 57344 := hC.2
+               simp only [c1, c2, decide_true, decide_false, Bool.or_true, Bool.true_or, Bool.or_false, Bool.false_or, Bool.and_true, Bool.true_and, Bool.and_false, Bool.false_and, Bool.or_self, Bool.and_self, Bool.false_eq_true, true_or, or_true, or_false, false_or, and_true, true_and, and_false, false_and, and_self, or_self, not_true_eq_false, not_false_eq_true, if_true, if_false]
+               enc_write $d $E $e2
+                 (GoSem.utf16DecodeRune (BitVec.setWidth 32 (BitVec.ofNat 64 $v1)) (BitVec.setWidth 32 (BitVec.ofNat 64 v2)))
+                 (dec_bridge $v1 v2 ⟨a3, a4⟩ hC)
+             · have c1 : v2 ≥ 56320 := by omega
+               have c2 : ¬ v2 < 57344 := by omega
+               simp only [c1, c2, decide_true, decide_false, Bool.or_true, Bool.true_or, Bool.or_false, Bool.false_or, Bool.and_true, Bool.true_and, Bool.and_false, Bool.false_and, Bool.or_self, Bool.and_self, Bool.false_eq_true, true_or, or_true, or_false, false_or, and_true, true_and, and_false, false_and, and_self, or_self, not_true_eq_false, not_false_eq_true, if_true, if_false]
+               apply StepRel.cont
+               congr 1 <;> omega
+         · have hb1' : b1.toNat ≠ 117 := by
+             intro h; apply hb1; apply BitVec.eq_of_toNat_eq; simpa using h
+           have hbb : (b1 != 117#8) = true := by simpa using hb1
+           have hbbe : (b1 == 117#8) = false := by simpa using hb1
+           simp only [hbb, hbbe, Bool.not_false, Bool.not_true, Bool.not_not, if_true, ne_eq, hb1', not_false_eq_true]
            apply StepRel.cont
            congr 1 <;> omega
-     · have hBb : (decide ($v1 ≥ 55296) && decide ($v1 < 56320)) = false := by
-         simp only [Bool.and_eq_false_iff, decide_eq_false_iff_not]; omega
-       simp only [hA, hAb, hB, hBb, if_false, Bool.false_eq_true]
-       apply StepRel.cont
-       congr 1 <;> omega))
+       · have hb0' : b0.toNat ≠ 92 := by
+           intro h; apply hb0; apply BitVec.eq_of_toNat_eq; simpa using h
+         have hbb : (b0 != 92#8) = true := by simpa using hb0
+         have hbbe : (b0 == 92#8) = false := by simpa using hb0
+         simp only [hbb, hbbe, Bool.not_false, Bool.not_true, Bool.not_not, Bool.not_true, Bool.false_eq_true, if_false, if_true, Res.bind_ok', ne_eq, hb0',
+           not_false_eq_true]
+         apply StepRel.cont
+         congr 1 <;> omega
+   · have a1 : ¬ $v1 < 55296 := by omega
+     have a2 : ¬ $v1 ≥ 57344 := by omega
+     have a3 : $v1 ≥ 55296 := by omega
+     have a4 : ¬ $v1 < 56320 := by omega
+     simp only [a1, a2, a3, a4, decide_true, decide_false, Bool.or_true, Bool.true_or, Bool.or_false, Bool.false_or, Bool.and_true, Bool.true_and, Bool.and_false, Bool.false_and, Bool.or_self, Bool.and_self, Bool.false_eq_true, true_or, or_true, or_false, false_or, and_true, true_and, and_false, false_and, and_self, or_self, not_true_eq_false, not_false_eq_true, if_true, if_false]
+     apply StepRel.cont
+     congr 1 <;> omega))
 
 theorem utf16_step (src dst : List (BitVec 8)) (e f i fuel : Nat) (hi : i < src.length) :
     StepRel (fun d e f i => .ok (d, e, f, i)) (Utf16Parse_loop1 fuel src)
@@ -189,14 +206,14 @@ theorem utf16_step (src dst : List (BitVec 8)) (e f i fuel : Nat) (hi : i < src.
     generalize src[i] = c
     by_cases hc : c = 92#8
     · subst hc
-      simp only [bne_self_eq_false, Bool.not_false, Bool.false_eq_true, if_true, if_false, BitVec.toNat_ofNat,
+      simp only [bne_self_eq_false, beq_self_eq_true, Bool.not_true, Bool.not_not, Bool.not_false, Bool.false_eq_true, if_true, if_false, BitVec.toNat_ofNat,
         Nat.reducePow, Nat.reduceMod, ne_eq, not_true_eq_false]
       rw [idx_ok' src _ (i + 1) (by omega) hi1]
       simp only [Res.bind_ok']
       generalize src[i + 1] = c1
       by_cases hc1 : c1 = 117#8
       · subst hc1
-        simp only [bne_self_eq_false, Bool.false_eq_true, if_false, BitVec.toNat_ofNat, Nat.reducePow, Nat.reduceMod,
+        simp only [bne_self_eq_false, beq_self_eq_true, Bool.not_true, Bool.not_not, Bool.false_eq_true, if_false, BitVec.toNat_ofNat, Nat.reducePow, Nat.reduceMod,
           ne_eq, not_true_eq_false]
         rw [slice_ok' src _ _ (i + 2) (i + 6) (by omega) (by omega) (by omega) (by omega)]
         rw [(slice_ok src (i + 2) (i + 6) (by omega) (by omega)).2]
@@ -210,7 +227,7 @@ theorem utf16_step (src dst : List (BitVec 8)) (e f i fuel : Nat) (hi : i < src.
         cases ok
         · simp only [Bool.not_false, if_true]
           apply StepRel.cont
-          congr 1
+          congr 1 <;> omega
         · have hv16 := parseUint16_le hr
           simp only [Bool.not_true, Bool.false_eq_true, if_false]
           by_cases hfi : f < i
@@ -231,15 +248,17 @@ theorem utf16_step (src dst : List (BitVec 8)) (e f i fuel : Nat) (hi : i < src.
       · have hc1' : c1.toNat ≠ 117 := by
           intro h; apply hc1; apply BitVec.eq_of_toNat_eq; simpa using h
         have hb : (c1 != 117#8) = true := by simpa using hc1
-        simp only [hb, if_true, ne_eq, hc1', not_false_eq_true]
+        have hbe : (c1 == 117#8) = false := by simpa using hc1
+        simp only [hb, hbe, Bool.not_false, Bool.not_true, Bool.not_not, if_true, ne_eq, hc1', not_false_eq_true]
         apply StepRel.cont
-        congr 1
+        congr 1 <;> omega
     · have hc' : c.toNat ≠ 92 := by
         intro h; apply hc; apply BitVec.eq_of_toNat_eq; simpa using h
       have hb : (c != 92#8) = true := by simpa using hc
-      simp only [hb, Bool.not_true, Bool.false_eq_true, if_false, if_true, Res.bind_ok', ne_eq, hc', not_false_eq_true]
+      have hbe : (c == 92#8) = false := by simpa using hc
+      simp only [hb, hbe, Bool.not_false, Bool.not_true, Bool.not_not, Bool.not_true, Bool.false_eq_true, if_false, if_true, Res.bind_ok', ne_eq, hc', not_false_eq_true]
       apply StepRel.cont
-      congr 1
+      congr 1 <;> omega
 
 theorem utf16_end (src : List (BitVec 8)) (fuel : Nat) (dst : List (BitVec 8)) (e f i : Nat) (h : ¬ i < src.length) :
     Utf16Parse_loop1 (fuel + 1) src dst e f i = .ok (dst, (e : Int), (f : Int), (i : Int)) := by
